@@ -81,16 +81,16 @@ Section Deps.
   Proof. apply Hwf. Qed.
 
   Lemma wf_lookup k def : assoc k sts = Some def ->
-    wf_name k = true /\ (forall a, k <> atomic_name a) /\ Forall (fun m => wf_mty sts (sm_ty m) = true) def.
+    wf_name k = true /\ (forall a, wf_atomic a = true -> k <> atomic_name a) /\ Forall (fun m => wf_mty sts (sm_ty m) = true) def.
   Proof.
     intros Ha. apply assoc_In in Ha. destruct Hwf as [_ Hall]. rewrite Forall_forall in Hall.
     apply (Hall _ Ha).
   Qed.
 
-  Lemma atomic_undeclared a : assoc (atomic_name a) sts = None.
+  Lemma atomic_undeclared a : wf_atomic a = true -> assoc (atomic_name a) sts = None.
   Proof.
-    destruct (assoc (atomic_name a) sts) as [def|] eqn:E; [|reflexivity].
-    apply wf_lookup in E as (_ & Hn & _). exfalso. apply (Hn a). reflexivity.
+    intros Hwa. destruct (assoc (atomic_name a) sts) as [def|] eqn:E; [|reflexivity].
+    apply wf_lookup in E as (_ & Hn & _). exfalso. apply (Hn a Hwa). reflexivity.
   Qed.
 
   Lemma declared_assoc k : In k (keys sts) -> exists def, assoc k sts = Some def.
@@ -106,17 +106,22 @@ Section Deps.
   Lemma wf_mty_base t : wf_mty sts t = true ->
     match base t with
     | Some c => base_name t = c /\ In c (keys sts)
-    | None => exists a, base_name t = atomic_name a
+    | None => exists a, wf_atomic a = true /\ base_name t = atomic_name a
     end.
   Proof.
     induction t as [a|n|t IH k]; simpl; intros Hw.
-    - exists a. reflexivity.
+    - exists a. split; [exact Hw | reflexivity].
     - split; [reflexivity | apply bmem_In; exact Hw].
     - apply IH. exact Hw.
   Qed.
 
-  Lemma tlookup_all k : tlookup k all = match assoc k sts with Some d => Some (render_def d) | None => None end.
+  Lemma tlookup_all k def : assoc k sts = Some def -> tlookup k all = Some (render_def def).
   Proof. apply Hrep. Qed.
+  Lemma tlookup_atomic a : wf_atomic a = true -> tlookup (atomic_name a) all = None.
+  Proof. apply Hrep. Qed.
+
+  (* the names the DFS is called with: a declared struct type or an atomic type *)
+  Definition known (b : bytes) : Prop := In b (keys sts) \/ exists a, wf_atomic a = true /\ b = atomic_name a.
 
   Lemma reach_undeclared a k : assoc a sts = None -> reachable sts a k -> k = a.
   Proof.
@@ -182,8 +187,8 @@ Section Deps.
     is_nil_type (tget k set) = negb (bmem k (keys set)).
   Proof.
     intros [_ Hinv]. unfold tget. destruct (bmem k (keys set)) eqn:E.
-    - apply bmem_In in E. destruct (Hinv _ E) as [Hk ->]. rewrite tlookup_all.
-      apply declared_assoc in Hk as (def & ->). reflexivity.
+    - apply bmem_In in E. destruct (Hinv _ E) as [Hk ->].
+      apply declared_assoc in Hk as (def & Hd). rewrite (tlookup_all _ _ Hd). reflexivity.
     - apply bmem_false in E. unfold tlookup. rewrite alookup_assoc.
       replace (assoc k set) with (@None (option gtype)); [reflexivity|].
       symmetry. apply assoc_None. exact E.
@@ -191,7 +196,7 @@ Section Deps.
 
   (* the member loop, given the statement for calls with fuel f *)
   Lemma loop_ok f
-    (IHf : forall name set, (length (unvisited set) < f)%nat -> Inv set ->
+    (IHf : forall name set, known (strip_array name) -> (length (unvisited set) < f)%nat -> Inv set ->
              exists set', addNestedTypes f name all set = Ok set' /\ Post (strip_array name) set set') :
     forall ms set, (length (unvisited set) < f)%nat -> Inv set ->
       Forall (fun m => wf_mty sts (sm_ty m) = true) ms ->
@@ -206,7 +211,10 @@ Section Deps.
       + intros m c [].
       + intros k Hk Hn. contradiction.
     - inversion Hwfm as [|? ? Hwm Hwms]; subst.
-      destruct (IHf (ty_name (sm_ty m)) set Hf Hinv) as (set1 & E1 & Hinv1 & Hi1 & Hroot1 & Hnew1).
+      assert (Hknown : known (strip_array (ty_name (sm_ty m)))).
+      { rewrite (strip_ty_name _ (wf_mty_names _ Hwm)). pose proof (wf_mty_base _ Hwm) as Hwb.
+        destruct (base (sm_ty m)); [left; destruct Hwb as [-> ?]; assumption | right; exact Hwb]. }
+      destruct (IHf (ty_name (sm_ty m)) set Hknown Hf Hinv) as (set1 & E1 & Hinv1 & Hi1 & Hroot1 & Hnew1).
       rewrite (strip_ty_name _ (wf_mty_names _ Hwm)) in Hroot1, Hnew1.
       assert (Hf1 : (length (unvisited set1) < f)%nat) by (pose proof (unvisited_le _ _ Hi1); lia).
       destruct (IH set1 Hf1 Hinv1 Hwms) as (set' & E2 & Hinv' & Hi2 & Hm2 & Hnew2).
@@ -220,22 +228,23 @@ Section Deps.
         * destruct (Hnew1 k Hk1 Hnk) as [Hr Hc]. split.
           -- pose proof (wf_mty_base _ Hwm) as Hwb. destruct (base (sm_ty m)) as [c|] eqn:Hb.
              ++ destruct Hwb as [Hbn _]. rewrite Hbn in Hr. exists m, c. simpl; auto.
-             ++ destruct Hwb as (a & Ha). rewrite Ha in Hr.
-                apply reach_undeclared in Hr; [|apply atomic_undeclared]. subst k.
+             ++ destruct Hwb as (a & Hwa & Ha). rewrite Ha in Hr.
+                apply reach_undeclared in Hr; [|apply atomic_undeclared; exact Hwa]. subst k.
                 destruct Hinv1 as [_ Hinv1]. destruct (Hinv1 _ Hk1) as [Hdecl _].
-                apply declared_assoc in Hdecl as (d & Hd). rewrite atomic_undeclared in Hd. discriminate.
+                apply declared_assoc in Hdecl as (d & Hd). rewrite (atomic_undeclared _ Hwa) in Hd. discriminate.
           -- intros c Hc'. apply Hi2, Hc, Hc'.
         * destruct (Hnew2 k Hk Hk1) as [(m0 & c & Hm0 & Hb0 & Hr0) Hc]. split; [|exact Hc].
           exists m0, c. simpl; auto.
   Qed.
 
-  Lemma dfs_ok : forall f name set, (length (unvisited set) < f)%nat -> Inv set ->
+  Lemma dfs_ok : forall f name set, known (strip_array name) -> (length (unvisited set) < f)%nat -> Inv set ->
     exists set', addNestedTypes f name all set = Ok set' /\ Post (strip_array name) set set'.
   Proof.
-    induction f as [|f IHf]; intros name set Hf Hinv; [lia|].
-    rewrite addNestedTypes_unfold. cbv zeta. set (b := strip_array name).
-    rewrite tlookup_all. destruct (assoc b sts) as [def|] eqn:Eb.
-    - rewrite (visited_nil_check _ _ Hinv). destruct (bmem b (keys set)) eqn:Ev; simpl negb; cbv iota.
+    induction f as [|f IHf]; intros name set Hknown Hf Hinv; [lia|].
+    rewrite addNestedTypes_unfold. cbv zeta. set (b := strip_array name) in *.
+    destruct Hknown as [Hdecl0|(a0 & Hwa0 & Ha0)].
+    - destruct (declared_assoc _ Hdecl0) as (def & Eb). rewrite (tlookup_all _ _ Eb).
+      rewrite (visited_nil_check _ _ Hinv). destruct (bmem b (keys set)) eqn:Ev; simpl negb; cbv iota.
       + apply bmem_In in Ev. exists set. split; [reflexivity|].
         split; [exact Hinv|split; [apply incl_refl|split; [auto|tauto]]].
       + apply bmem_false in Ev.
@@ -248,7 +257,7 @@ Section Deps.
           - intros k Hk. rewrite Hk1 in Hk. apply in_app_or in Hk as [Hk|[<-|[]]].
             + destruct (Hinv _ Hk) as [Hd Hl]. split; [exact Hd|]. rewrite <- Hl.
               unfold tlookup, set1. apply alookup_aset_other. intros ->. auto.
-            + split; [exact Hdecl|]. rewrite tlookup_all, Eb. unfold tlookup, set1. apply alookup_aset_same. }
+            + split; [exact Hdecl|]. rewrite (tlookup_all _ _ Eb). unfold tlookup, set1. apply alookup_aset_same. }
         assert (Hi1 : incl (keys set) (keys set1)) by (rewrite Hk1; apply incl_appl, incl_refl).
         assert (Hf1 : (length (unvisited set1) < f)%nat).
         { assert (Hb1 : In b (keys set1)) by (rewrite Hk1; apply in_or_app; right; left; reflexivity).
@@ -266,9 +275,9 @@ Section Deps.
              destruct (Hnew2 k Hk Hnk1) as [(m & c & Hm & Hb & Hr) Hc]. split; [|exact Hc].
              eapply reachable_trans; [|exact Hr].
              eapply reach_step; [apply reach_refl | exact Eb | apply in_refs; eauto].
-    - exists set. split; [reflexivity|].
+    - rewrite Ha0, (tlookup_atomic _ Hwa0). exists set. split; [reflexivity|].
       split; [exact Hinv|split; [apply incl_refl|split; [|tauto]]].
-      intros Hd. apply declared_assoc in Hd as (d & Hd). congruence.
+      intros Hd. apply declared_assoc in Hd as (d & Hd). rewrite (atomic_undeclared _ Hwa0) in Hd. discriminate.
   Qed.
 
   (* the DFS from a declared type, started with the empty map, returns exactly the reachable types *)
@@ -278,7 +287,7 @@ Section Deps.
     apply NoDup_incl_length; [apply keys_nodup|].
     intros k Hk. apply declared_assoc in Hk as (def & Hd).
     apply assoc_keys. exists (render_def def). rewrite <- alookup_assoc. fold (tlookup k all).
-    rewrite tlookup_all, Hd. reflexivity.
+    rewrite (tlookup_all _ _ Hd). reflexivity.
   Qed.
 
   Lemma dfs_from_root n def : assoc n sts = Some def ->
@@ -294,10 +303,11 @@ Section Deps.
       assert (length (filter (fun _ : bytes => true) (keys sts)) = length (keys sts)).
       { clear. induction (keys sts); simpl; auto. }
       lia. }
-    destruct (dfs_ok _ n [] Hf0 Hinv0) as (ds & E & Hinv & _ & Hroot & Hnew).
     destruct (wf_lookup _ _ Hn) as (Hname & _ & _). apply wf_name_nobr in Hname as [[Hnb _] _].
-    rewrite (strip_array_nobr _ Hnb) in Hroot, Hnew.
     assert (Hdecl : In n (keys sts)) by (apply assoc_keys; eauto).
+    assert (Hknown : known (strip_array n)) by (rewrite (strip_array_nobr _ Hnb); left; exact Hdecl).
+    destruct (dfs_ok _ n [] Hknown Hf0 Hinv0) as (ds & E & Hinv & _ & Hroot & Hnew).
+    rewrite (strip_array_nobr _ Hnb) in Hroot, Hnew.
     exists ds. split; [exact E|]. split; [apply Hinv|]. split.
     - intros k. split.
       + intros Hk. apply Hnew; [exact Hk | intros []].
@@ -428,7 +438,7 @@ Section Deps.
   Proof.
     induction names as [|k names IH]; intros Hk; [reflexivity|].
     cbn [Type_Encode_all map concat]. destruct (Hk k (or_introl eq_refl)) as [Hd Hl].
-    unfold tget. rewrite Hl, tlookup_all. apply declared_assoc in Hd as (def & Hd). rewrite Hd.
+    unfold tget. apply declared_assoc in Hd as (def & Hd). rewrite Hl, (tlookup_all _ _ Hd).
     rewrite Type_Encode_render. cbn [bind]. rewrite IH by (intros k' Hk'; apply Hk; right; exact Hk'). cbn [bind].
     unfold def_of. rewrite Hd. reflexivity.
   Qed.
@@ -437,12 +447,12 @@ Section Deps.
   Lemma encodeType_ok n def : assoc n sts = Some def ->
     Model.encodeType all n = Ok (map render_member def, Spec.encodeType sts n).
   Proof.
-    intros Hn. unfold Model.encodeType, tget. rewrite tlookup_all, Hn. unfold render_def.
+    intros Hn. unfold Model.encodeType, tget. rewrite (tlookup_all _ _ Hn). unfold render_def.
     destruct (dfs_from_root n def Hn) as (ds & E & Hnd & Hkeys & Hlook). rewrite E. cbn [bind].
     assert (Hdecl : In n (keys sts)) by (apply assoc_keys; eauto).
     unfold TypeSet_Encode, TypeSet_Encode_keys. fold (keys ds).
     assert (Hnin : In n (keys ds)) by (apply Hkeys, reach_refl).
-    unfold tget. rewrite (Hlook _ Hnin), tlookup_all, Hn. rewrite Type_Encode_render. cbn [bind].
+    unfold tget. rewrite (Hlook _ Hnin), (tlookup_all _ _ Hn). rewrite Type_Encode_render. cbn [bind].
     assert (Hsort : sort (filter (fun k => negb (bytes_eqb k n)) (keys ds)) = deps sts n).
     { unfold deps. apply sort_same_elements.
       - apply NoDup_filter. exact Hnd.
